@@ -92,12 +92,25 @@ pub fn c05_build(raw: &Raw, _tier: Tier, _sched: bool) -> Scenario {
             let _ = fr;
             b.s.epilogue.push(Op::Stop { store: feeder, via_trait: false });
         }
+        let mut reconf = 0;
         for ops in raw.threads.iter() {
             let th = b.thread();
             let burst = ops.len().min(3 * cap + 2);
             for r in ops.iter().take(burst) {
                 if r.k % 8 == 7 {
                     b.s.threads[th].push(Op::Stall(stall_of(r.a)));
+                    continue;
+                }
+                // now and then a client reconfigures the running store (middleware, reducer,
+                // subscriber) while others may be parked on the full queue
+                if r.k % 8 == 6 && (r.k >> 3) % 4 == 0 && reconf < 2 {
+                    reconf += 1;
+                    let op = match (r.k >> 5) % 3 {
+                        0 => Op::AddMiddleware { store: s, comp: b.comp() },
+                        1 => Op::AddReducer { store: s, comp: b.comp() },
+                        _ => Op::Subscribe { store: s, sub: b.sub(SubKind::Direct) },
+                    };
+                    b.s.threads[th].push(op);
                     continue;
                 }
                 // reducers may return effects, incl. Effect::Action / thunks whose follow-ups are
@@ -291,7 +304,14 @@ pub fn c06_build(raw: &Raw, _tier: Tier, _sched: bool) -> Scenario {
     if mode < 2 {
         // (mode 3 is handled above)
         let g = b.gate();
-        b.comp_mut(r0).gate = Some(g);
+        if knob(raw, 4) % 3 == 0 {
+            // the primer is held inside a middleware's before_reduce hook instead of inside the
+            // reducer (the reducer thread then sits in the middle of a hook loop)
+            let m0 = b.middleware(s);
+            b.comp_mut(m0).gate = Some(g);
+        } else {
+            b.comp_mut(r0).gate = Some(g);
+        }
         let done = b.gate();
         let primer = b.action(s, 0);
         b.s.prelude.push(Op::Dispatch { act: primer, via: Via::Inherent });
@@ -338,6 +358,14 @@ pub fn c06_build(raw: &Raw, _tier: Tier, _sched: bool) -> Scenario {
                 let a = b.action(s, (r.a % 4) as u8);
                 if r.k % 8 == 6 {
                     b.act_mut(a).red_stall.push((r0, stall_of(r.b)));
+                }
+                // running reducer only: some actions return Effect::Action, i.e. a worker
+                // dispatches one more action into the (possibly full) queue - it, too, is taken
+                // once or counted once
+                if (r.k >> 6) % 4 == 0 {
+                    let f = b.action(s, 0);
+                    let e = b.eff(EffKind::Action(f), false, Stall::None);
+                    b.act_mut(a).effects.push((r0, e));
                 }
                 b.s.threads[th].push(Op::Dispatch { act: a, via: via_of(r) });
             }
@@ -387,9 +415,25 @@ pub fn c06_check(scn: &Scenario, h: &History) -> Outcome {
         });
     let all: Vec<&Disp> = d.disps.iter().filter(|x| matches!(x.src, Src::Client { .. })).collect();
     // conservation (every dispatch here is made while the store is open)
+    // follow-ups dispatched by workers (Effect::Action of a reduced action): each is dispatched at
+    // most once - taken, counted as dropped, or refused because the store had closed meanwhile
+    let follow: Vec<ActId> = runs.iter().flat_map(|r| r.effects_surviving.iter()).filter_map(|e| match eff_spec(scn, *e).map(|x| &x.kind) {
+        Some(EffKind::Action(f)) => Some(*f),
+        _ => None,
+    }).collect();
+    let follow_reduced = follow.iter().filter(|f| order.contains(f)).count();
     if let Some(dropped) = dropped_final {
         let reduced = all.iter().filter(|x| order.contains(&x.act)).count();
-        if reduced + dropped != all.len() {
+        if !follow.is_empty() {
+            out.class("follow-ups-dispatched-by-workers");
+            let (lo, hi) = (all.len(), all.len() + follow.len() - follow_reduced);
+            if reduced + dropped < lo || reduced + dropped > hi {
+                out.viol(format!(
+                    "{} actions were dispatched by clients while the store was open and {} follow-ups by workers ({} of them reduced); {} client actions were taken by the reducer and the dropped-actions metric is {}: {} + {} is outside {}..={}",
+                    all.len(), follow.len(), follow_reduced, reduced, dropped, reduced, dropped, lo, hi
+                ));
+            }
+        } else if reduced + dropped != all.len() {
             out.viol(format!(
                 "{} actions were dispatched while the store was open, {} were taken by the reducer and the dropped-actions metric is {}: {} + {} != {}",
                 all.len(), reduced, dropped, reduced, dropped, all.len()
@@ -484,7 +528,7 @@ pub fn c06_check(scn: &Scenario, h: &History) -> Outcome {
 
 pub static C06: Profile = Profile {
     id: "C06",
-    rule: "proptest scenarios: both drop policies, capacity 1-4, every constructor path. Modes: (a) primer held by a gated reducer, one producer sends a burst of n <= 3*capacity+2 alternating entry points, then the gate opens, min(n,capacity) survivor notifications are awaited, then stop; (b) same with 2-3 producers; (c) running reducer with 1-3 producers. Oracle O-DROP: exact survivors (newest/oldest min(n,capacity), per-thread suffix/prefix), dropped-actions metric sampled while the reducer is held and after stop, conservation reduced + dropped = dispatched, Ok/Err per call (Dispatcher::dispatch Err exactly for DropLatest discards), survivor order; a burst thread that blocks is a deadlock under S. Non-trivial = stalled modes: n > capacity; running mode: >= 1 dropped action and >= 2 producers; distinct by scenario hash.",
+    rule: "proptest scenarios: both drop policies, capacity 1-4, every constructor path. Modes: (a) primer held by a gated reducer (or, in a third of the cases, inside a middleware's before_reduce hook), one producer sends a burst of n <= 3*capacity+2 alternating entry points, then the gate opens, min(n,capacity) survivor notifications are awaited, then stop; (b) same with 2-3 producers; (c) running reducer with 1-3 producers. Oracle O-DROP: exact survivors (newest/oldest min(n,capacity), per-thread suffix/prefix), dropped-actions metric sampled while the reducer is held and after stop, conservation reduced + dropped = dispatched, Ok/Err per call (Dispatcher::dispatch Err exactly for DropLatest discards), survivor order; a burst thread that blocks is a deadlock under S. Non-trivial = stalled modes: n > capacity; running mode: >= 1 dropped action and >= 2 producers; distinct by scenario hash.",
     raw,
     build: c06_build,
     check: c06_check,
